@@ -35,7 +35,7 @@
   progress), also with nothing to spawn: the real start-up of a namespaced operator begins with
   an EMPTY batch (no namespaces known yet), the kinds come with the second one. A "kind" of this
   model is one watcher: a (resource, namespace) pair. The property's "every indexed resource
-  kind … once" is about the START-UP kinds: those spawned before anybody has seen the set on
+  kind … once" is about the START-UP kinds: those of the batches begun before anybody has seen the set on
   (`first`, `Ready1`) — kinds discovered after that do not close the gate again for watchers that
   have seen it open (by design: "NOT when the readiness is already achieved once"; finding C17-F4).
   `Ready` is the stronger momentary fact about every kind spawned so far; it holds whenever a
@@ -83,7 +83,7 @@ structure GState (R O : Type) where
   indexedOnce : List (R × O)      -- objects whose `index_resource` completed at least once
   everOn : Bool                   -- somebody has observed the set to be on
   handled : Bool                  -- some worker has reached the handlers
-  first : List R                  -- start-up kinds: indexed kinds spawned before anybody saw the set on
+  first : List R                  -- start-up kinds: indexed kinds of the batches begun before anybody saw the set on
   wlist : List (R × O)            -- every object that ever got a worker (to enumerate `workers`)
   leaked : List (R × O)           -- per-object toggles still in the set whose worker has exited: nobody can drop them
   leakedK : List R                -- per-kind toggles still in the set whose watcher has ended
@@ -141,7 +141,10 @@ def step (bug : Bug) (s : GState R O) : Label R O → Option (GState R O)
     if !s.spawning && decide ((kinds.map Prod.fst).Nodup) &&
         kinds.all (fun p => (aget p.1 s.spawned).isNone) then
       some { s with started := true, spawning := true,
-                    blocker := (bug != .noBlocker), pending := kinds }
+                    blocker := (bug != .noBlocker), pending := kinds,
+                    -- the kinds of a batch begun before anybody saw the set on are start-up kinds
+                    first := if s.everOn then s.first
+                             else s.first ++ (kinds.filter (·.2)).map Prod.fst }
     else none
   | .spawn r =>
     match s.pending with
@@ -149,8 +152,7 @@ def step (bug : Bug) (s : GState R O) : Label R O → Option (GState R O)
     | (r', ind) :: rest =>
       if s.spawning && decide (r' = r) && (aget r s.spawned).isNone then
         some { s with pending := rest, spawned := s.spawned ++ [(r, ind)],
-                      resTog := if ind && (bug != .noKindToggle) then sadd r s.resTog else s.resTog,
-                      first := if ind && !s.everOn then sadd r s.first else s.first }
+                      resTog := if ind && (bug != .noKindToggle) then sadd r s.resTog else s.resTog }
       else none
   | .spawnEnd =>
     if s.spawning && s.pending.isEmpty then
@@ -274,7 +276,7 @@ def Ready (s : GState R O) : Prop :=
   (∀ r, aget r s.spawned = some true → r ∈ s.listed) ∧
   (∀ ro, ro ∈ s.listing → ro ∈ s.indexedOnce)
 
-/-- The property's right-hand side proper: every START-UP kind (indexed, spawned before anybody saw
+/-- The property's right-hand side proper: every START-UP kind (indexed, of a batch begun before anybody saw
     the set on — in the real start-ups: every kind of the first non-empty batch) has delivered
     LISTED, and every object of those initial listings has been through `index_resource`.
     Stable: once true it stays true, also when later batches re-close the gate. -/
@@ -292,6 +294,13 @@ def Healthy (s : GState R O) : Prop :=
   s.leaked = [] ∧ s.leakedK = [] ∧
   ∀ ro, ro ∈ s.objTog → ∃ w, s.workers ro = some w ∧ (w.pc = .queued ∨ w.pc = .indexed) ∧
     w.gated = true ∧ w.hasToggle = true
+
+/-- decidable form of `Healthy` (for examples) -/
+def healthyB (s : GState R O) : Bool :=
+  s.leaked.isEmpty && s.leakedK.isEmpty &&
+  s.objTog.all (fun ro => match s.workers ro with
+    | some w => (decide (w.pc = .queued) || decide (w.pc = .indexed)) && w.gated && w.hasToggle
+    | none => false)
 
 /-- the gate is open and every worker is past it -/
 def Open (s : GState R O) : Prop :=
